@@ -322,7 +322,10 @@ fn oracle_c16(case: &Case, outs: &[ImplRes]) -> Result<(), String> {
     let f = spec::frame(&p);
     let f2 = spec::frame(&p2);
     if case.family == "default-buffer" {
-        let its = items(outs[0].text);
+        let mut its = items(outs[0].text);
+        while its.len() < 2 {
+            its.push(String::new());
+        }
         if p.len() <= n {
             return expect_eq("default 8 KiB buffer, payload fits", &its[..2].join(" "), &format!("ok:{} ok:{}", hex(&p), hex(&p2)));
         }
@@ -403,6 +406,15 @@ fn oracle_c11(case: &Case, outs: &[ImplRes]) -> Result<(), String> {
             let a: Vec<String> = items(outs[0].text).into_iter().filter(|t| t != "io:wb:0" && t != "nbwb").collect();
             let b: Vec<String> = items(outs[1].text).into_iter().filter(|t| t != "io:wb:0" && t != "nbwb").collect();
             expect_eq("embedded-hal source: results with would-block removed vs fault-free run", &a.join(" "), &b.join(" "))
+        }
+        "other-error-eh" => {
+            let its = items(outs[0].text);
+            let want0 = format!("io:other:{}", case.aux[0]);
+            let want1 = format!("ok:{}", case.aux[1]);
+            if its.first().map(|s| s.as_str()) != Some(want0.as_str()) || its.get(1).map(|s| s.as_str()) != Some(want1.as_str()) {
+                return Err(format!("embedded-hal source: got `{}`, expected `{} {} …` (the error with the pending byte count, then the next frame)", short(outs[0].text), want0, want1));
+            }
+            Ok(())
         }
         "eof-midstream" => {
             // results before the end-of-input report, the report (None when nothing is pending, the exact
